@@ -207,6 +207,11 @@ func Same(a, b tengo.Object) bool {
 		y, ok := b.(*tengo.ImmutableMap)
 		return ok && sameMap(x.Value, y.Value)
 	}
+	if _, ok := a.(tengo.Iterator); ok {
+		// hidden for-in iterators: compared by kind only
+		_, ok2 := b.(tengo.Iterator)
+		return ok2 && a.TypeName() == b.TypeName()
+	}
 	return a == b
 }
 
